@@ -25,17 +25,33 @@ struct Hist {
     /// empty = the complete lifetime.  All stretches share one ghost map, so that a one-time key
     /// used in two distant stretches is seen.
     windows: Vec<(u64, u64)>,
+    /// always sign with the aux buffer key generation filled (keys whose top tree is too big to
+    /// be rebuilt for every signature)
+    live_aux_only: bool,
 }
 
 fn mix_label(m: &[u64; 6]) -> String {
     m.iter().map(|x| format!("{}", x / 100)).collect::<Vec<_>>().join("")
 }
 
+#[cfg(feature = "fv")]
+fn sign_mut_step(alg: Alg, blob: &[u8], msg: &[u8], cb: Cb) -> (libcall::SignRec, Vec<u8>) {
+    let mut m = msg.to_vec();
+    m.extend(std::iter::repeat(0u8).take(alg.n()));
+    let (rec, _) = libcall::sign_mut(alg, blob, &mut m, cb);
+    (rec, m)
+}
+
+#[cfg(not(feature = "fv"))]
+fn sign_mut_step(_alg: Alg, _blob: &[u8], msg: &[u8], _cb: Cb) -> (libcall::SignRec, Vec<u8>) {
+    (libcall::SignRec { result: Out::Err, cb_args: Vec::new(), late_callbacks: 0, key_after: None }, msg.to_vec())
+}
+
 fn run_hist(h: Hist, w: &mut Worker, ctx: &Ctx) {
     let cfg = lcfg(h.alg);
     let lvs = model::params::levels_to_string(&h.levels);
     let mut rng = Rng::new(ctx.seed).fork(&format!("c03-h{}", h.id));
-    let mut valid_aux = AuxBuf::new(vec![0u8; 700]);
+    let mut valid_aux = AuxBuf::new(vec![0u8; if h.live_aux_only { 40_000 } else { 700 }]);
     let kp = match libcall::keygen(h.alg, &h.levels, &h.seed, Some(&mut valid_aux)) {
         Out::Ok(k) => k,
         other => {
@@ -48,7 +64,9 @@ fn run_hist(h: Hist, w: &mut Worker, ctx: &Ctx) {
     let windows: Vec<(u64, u64)> = if complete { vec![(0, total)] } else { h.windows.clone() };
     let mut persisted = kp.sk.clone();
     let mut aux_live = valid_aux.clone(); // an aux buffer that travels with the key
-    let stale_aux = {
+    let stale_aux = if h.live_aux_only {
+        AuxBuf::new(vec![0u8; 8])
+    } else {
         // aux of another key (other seed): must never be believed
         let mut a = AuxBuf::new(vec![0u8; 700]);
         let other_seed = rng.bytes(h.alg.n());
@@ -96,8 +114,8 @@ fn run_hist(h: Hist, w: &mut Worker, ctx: &Ctx) {
             log.push("reload".into());
             continue;
         }
-        let use_aux = rng.below(1000) < h.mix[4];
-        let aux_kind = rng.below(3);
+        let use_aux = h.live_aux_only || rng.below(1000) < h.mix[4];
+        let aux_kind = if h.live_aux_only { 0 } else { rng.below(3) };
         let mut aux_tmp;
         let aux: Option<&mut AuxBuf> = if use_aux {
             match aux_kind {
@@ -114,7 +132,17 @@ fn run_hist(h: Hist, w: &mut Worker, ctx: &Ctx) {
         } else {
             None
         };
-        let (rec, entry, script) = if roll < h.mix[2] + h.mix[0] {
+        // in a build with the library's fast_verify feature a quarter of the steps go through
+        // hbs_lms::sign_mut (the signed content is then the message as the call left it)
+        #[allow(unused_mut)]
+        let mut msg = msg;
+        let use_sign_mut = cfg!(feature = "fv") && rng.below(4) == 0;
+        let (rec, entry, script) = if use_sign_mut {
+            let refuse = roll < h.mix[2] + h.mix[0];
+            let (r, m) = sign_mut_step(h.alg, &persisted, &msg, if refuse { Cb::Refuse } else { Cb::Accept });
+            msg = m;
+            (r, SignEntry::Bytes, if refuse { "refuse" } else { "accept" })
+        } else if roll < h.mix[2] + h.mix[0] {
             (libcall::sign_bytes(h.alg, &persisted, &msg, Cb::Refuse, aux), SignEntry::Bytes, "refuse")
         } else if roll < h.mix[2] + h.mix[0] + h.mix[1] {
             // the storage layer crashes inside the callback
@@ -281,7 +309,7 @@ pub fn run(ctx: &Ctx) -> Report {
                         rng.below(6) * 100,
                         rng.below(4) * 100,
                     ];
-                    hists.push(Hist { alg, levels: lv, seed: rng.bytes(alg.n()), id, mix, windows: vec![] });
+                    hists.push(Hist { alg, levels: lv, seed: rng.bytes(alg.n()), id, mix, windows: vec![], live_aux_only: false });
                 }
             }
         }
@@ -299,6 +327,32 @@ pub fn run(ctx: &Ctx) -> Report {
                 (Alg::Shake256_128, vec![(5, 4); 7]),
             ]
         };
+        // a top tree with more than 2^16 leaves: the bottom trees below top leaves q and q + 2^16
+        // (and the one-time keys in them) must be different ones; one 2^20-leaf tree per signature
+        {
+            id += 1;
+            hists.push(Hist {
+                alg: Alg::Sha256_128,
+                levels: levels(&[(20, 2), (2, 8)]),
+                seed: rng.bytes(16),
+                id,
+                mix: [0, 0, 0, 300, 0, 0],
+                windows: vec![(7 * 4 + 1, 2), ((65536 + 7) * 4 + 1, 2)],
+                live_aux_only: true,
+            });
+            if !ctx.quick() {
+                id += 1;
+                hists.push(Hist {
+                    alg: Alg::Shake256_128,
+                    levels: levels(&[(20, 1), (2, 8)]),
+                    seed: rng.bytes(16),
+                    id,
+                    mix: [0, 0, 0, 300, 0, 0],
+                    windows: vec![(3 * 4, 2), ((3 * 65536 + 3) * 4, 2), ((15 * 65536 + 3) * 4 + 1, 1)],
+                    live_aux_only: true,
+                });
+            }
+        }
         for (alg, spec) in tall {
             let lv = levels(&spec);
             let total = hss::total_leaves(&lv) as u64;
@@ -311,15 +365,16 @@ pub fn run(ctx: &Ctx) -> Report {
                 id,
                 mix: [100, 20, 100, 300, 0, 100],
                 windows: vec![(0, 4), (two32 - 3, 7), (2 * two32 - 1, 3), (total - 3, 3)],
+                live_aux_only: false,
             });
         }
     }
     if !ctx.quick() {
         for alg in [Alg::Sha256_256, Alg::Sha256_128, Alg::Shake256_192] {
             id += 1;
-            hists.push(Hist { alg, levels: levels(&[(5, 4), (5, 2)]), seed: rng.bytes(alg.n()), id, mix: [120, 30, 120, 300, 300, 200], windows: vec![] });
+            hists.push(Hist { alg, levels: levels(&[(5, 4), (5, 2)]), seed: rng.bytes(alg.n()), id, mix: [120, 30, 120, 300, 300, 200], windows: vec![], live_aux_only: false });
             id += 1;
-            hists.push(Hist { alg, levels: (0..6).map(|i| Level { h: 2, w: [8, 4, 2, 8, 4, 8][i] }).collect(), seed: rng.bytes(alg.n()), id, mix: [80, 20, 80, 300, 200, 100], windows: vec![] });
+            hists.push(Hist { alg, levels: (0..6).map(|i| Level { h: 2, w: [8, 4, 2, 8, 4, 8][i] }).collect(), seed: rng.bytes(alg.n()), id, mix: [80, 20, 80, 300, 200, 100], windows: vec![], live_aux_only: false });
         }
     }
     let played = |h: &Hist| if h.windows.is_empty() { hss::total_leaves(&h.levels) as f64 } else { h.windows.iter().map(|w| w.1 as f64).sum() };
@@ -331,7 +386,7 @@ pub fn run(ctx: &Ctx) -> Report {
     let n = hists.len();
     let mut rep = par_run(ctx, hists, |h, w| run_hist(h, w, ctx));
     rep.count("histories_planned", n as i128);
-    rep.rule = "many short seeded histories over complete key lifetimes (1..4 levels, uniform and mixed heights, all 6 hashes) plus, for 7- and 8-level keys of total height 35..42, the stretches at the start, across 2^32, across 2^33 and at the end of life in one shared ghost map: steps = sign(accept) with fresh or repeated message / sign with refusing callback then retry / callback that crashes then retry / reload from the persisted bytes / SigningKey::try_sign[_with_aux] vs byte-level sign / no, own, foreign or fresh aux; \
+    rep.rule = "many short seeded histories over complete key lifetimes (1..4 levels, uniform and mixed heights, all 6 hashes) plus, for 7- and 8-level keys of total height 35..42, the stretches at the start, across 2^32, across 2^33 and at the end of life in one shared ghost map, and for a key with a 2^20-leaf top tree the stretches below top leaves q and q + 2^16: steps = sign(accept) with fresh or repeated message / sign with refusing callback then retry / callback that crashes then retry / reload from the persisted bytes / SigningKey::try_sign[_with_aux] vs byte-level sign / no, own, foreign or fresh aux; \
                 the recorded history (signatures returned, keys persisted) is checked offline by the OTS ghost map, the mixed-radix digit rule and the counter+1 rule; \
                 distinct_nontrivial = distinct (hash, shape, step mix) histories that contained at least one failed attempt and one reload"
         .into();
